@@ -22,7 +22,10 @@ package expire
 //@
 //@ func Setup
 //@   property C09
-//@   ensures login_stamps: emits Events.Register("After", EventAuth, ?h) :: fname(h) == "Setup#Setup$1"
+//@   -- "login itself starts the idle clock": the stamping hook hangs on every event that
+//@   -- announces a login (password / OTP / 2FA / recovery: EventAuth; OAuth2: EventOAuth2;
+//@   -- registration: EventRegister)
+//@   ensures login_stamps: (emits Events.Register("After", EventAuth, _)) && (emits Events.Register("After", EventOAuth2, _)) && (emits Events.Register("After", EventRegister, _))
 //@
 //@ func Setup#1
 //@   property C09
